@@ -424,14 +424,14 @@ theorem getEvent_id (s : Store) (hc : Coh s) (id : Bytes) (c : Event) (h : getEv
 theorem replaceLoop_removes (e : Event) (dTag : Option Bytes) (ids : List Bytes) (s s' : Store)
     (hc : Coh s) (h : replaceLoop e dTag s ids = some s') :
     Removes s s' (fun id c => id ∈ ids ∧ id ≠ e.id ∧
-      (dTag = none ∨ ∃ d, dTag = some d ∧ hasTagDAll c d = some true)) := by
+      (dTag = none ∨ ∃ d, dTag = some d ∧ dValue c.tags = some d)) := by
   induction ids generalizing s with
   | nil => simp [replaceLoop] at h; subst h; exact removes_refl s hc _
   | cons id rest ih =>
     have weaken : ∀ s0, Removes s0 s' (fun id c => id ∈ rest ∧ id ≠ e.id ∧
-        (dTag = none ∨ ∃ d, dTag = some d ∧ hasTagDAll c d = some true)) →
+        (dTag = none ∨ ∃ d, dTag = some d ∧ dValue c.tags = some d)) →
         Removes s0 s' (fun id' c => id' ∈ id :: rest ∧ id' ≠ e.id ∧
-        (dTag = none ∨ ∃ d, dTag = some d ∧ hasTagDAll c d = some true)) := by
+        (dTag = none ∨ ∃ d, dTag = some d ∧ dValue c.tags = some d)) := by
       intro s0 r
       exact ⟨r.coh, r.nothing_new, fun i c h1 h2 =>
         let ⟨a, b, c'⟩ := r.only_P i c h1 h2; ⟨List.mem_cons_of_mem _ a, b, c'⟩⟩
@@ -445,6 +445,7 @@ theorem replaceLoop_removes (e : Event) (dTag : Option Bytes) (ids : List Bytes)
       | some cand =>
         simp only [hg] at h
         have hcid := getEvent_id s hc id cand hg
+        have hst : getEvent s cand.id = some cand := by rw [hcid]; exact hg
         cases dTag with
         | none =>
           simp only at h
@@ -452,32 +453,29 @@ theorem replaceLoop_removes (e : Event) (dTag : Option Bytes) (ids : List Bytes)
           | none => simp [hd] at h
           | some s1 =>
             simp only [hd, Option.bind_some] at h
-            have hst : getEvent s cand.id = some cand := by rw [hcid]; exact hg
             have hc1 := (coh_deleteEvent s s1 cand hc ((getEvent_iff _ _ _).mp hst) hd).1
             exact removes_step s s1 s' cand _ hc hst hd
               ⟨by rw [hcid]; exact List.mem_cons_self, by rw [hcid]; exact h1, Or.inl rfl⟩
               (weaken s1 (ih s1 hc1 h))
         | some d =>
           simp only at h
-          cases ht : hasTagDAll cand d with
+          cases ht : dValue cand.tags with
           | none => simp [ht] at h
-          | some b =>
-            cases b with
-            | false =>
-              simp only [ht] at h
-              exact weaken s (ih s hc h)
-            | true =>
-              simp only [ht] at h
+          | some cd =>
+            simp only [ht] at h
+            by_cases hcd : cd = d
+            · simp only [hcd, if_true] at h
               cases hd : deleteEvent s cand with
               | none => simp [hd] at h
               | some s1 =>
                 simp only [hd, Option.bind_some] at h
-                have hst : getEvent s cand.id = some cand := by rw [hcid]; exact hg
                 have hc1 := (coh_deleteEvent s s1 cand hc ((getEvent_iff _ _ _).mp hst) hd).1
                 exact removes_step s s1 s' cand _ hc hst hd
                   ⟨by rw [hcid]; exact List.mem_cons_self, by rw [hcid]; exact h1,
-                    Or.inr ⟨d, rfl, ht⟩⟩
+                    Or.inr ⟨d, rfl, by rw [ht, hcd]⟩⟩
                   (weaken s1 (ih s1 hc1 h))
+            · simp only [hcd, if_false] at h
+              exact weaken s (ih s hc h)
 
 theorem deleteLoop_removes (refs cands : List Bytes) (s s' : Store)
     (hc : Coh s) (h : deleteLoop refs s cands = some s') :
@@ -521,13 +519,11 @@ theorem postSave_removes (s s' : Store) (e : Event) (hc : Coh s) (h : postSave s
   by_cases hr : isReplaceableKind e.kind = true
   · simp only [hr, if_true] at h
     unfold postSaveReplaceable at h
-    cases hk : be32 e.kind with
-    | none => simp [hk] at h
-    | some kd =>
-      simp only [hk, Option.bind_eq_bind, Option.bind_some] at h
-      obtain ⟨ids, _, h⟩ := Option.bind_eq_some_iff.mp h
-      have r := replaceLoop_removes e _ ids s s' hc h
-      exact ⟨r.coh, r.nothing_new, fun i c h1 h2 => Or.inl (r.only_P i c h1 h2).2.1⟩
+    obtain ⟨dTag, _, h⟩ := Option.bind_eq_some_iff.mp h
+    obtain ⟨kd, _, h⟩ := Option.bind_eq_some_iff.mp h
+    obtain ⟨ids, _, h⟩ := Option.bind_eq_some_iff.mp h
+    have r := replaceLoop_removes e dTag ids s s' hc h
+    exact ⟨r.coh, r.nothing_new, fun i c h1 h2 => Or.inl (r.only_P i c h1 h2).2.1⟩
   · simp only [hr, Bool.false_eq_true, if_false] at h
     by_cases h5 : (e.kind == 5) = true
     · simp only [h5, if_true] at h
